@@ -83,8 +83,10 @@ def expect(elf, name, truth):
     byname = collections.defaultdict(list)
     for y in elf.syms:
         byname[y['name']].append(y)
+    # the kernel symbol: the one symbol of that name with positive size in .text
+    # (same-named labels of size 0 or symbols in other sections are decoys)
     ks = [y for y in byname[name] if y['shndx'] == ti and y['size'] > 0]
-    if len(ks) != 1 or len(byname[name]) != 1:
+    if len(ks) != 1:
         return None
     y = ks[0]
     t = elf.secs[ti]
@@ -93,10 +95,13 @@ def expect(elf, name, truth):
         return None
     sl = elf.data(t)[off:off + y['size']]
     exp = {'sym': y}
-    kds = byname[name + '.kd']
-    if len(kds) > 1:
+    # the descriptor: the one symbol called <name>.kd of size 64; it must lie in
+    # .rodata.  Same-named symbols of other sizes are decoys.  Several size-64
+    # candidates, or one outside .rodata: no judgement.
+    kds = [k for k in byname[name + '.kd'] if k['size'] == 64]
+    if len(kds) > 1 or (kds and not (ro and kds[0]['shndx'] == ro[0])):
         return None
-    if kds and ro and kds[0]['size'] == 64 and kds[0]['shndx'] == ro[0]:
+    if kds:
         r = elf.secs[ro[0]]
         ko = kds[0]['value'] - r['addr']
         if ko < 0 or ko + 64 > r['size']:
@@ -113,17 +118,15 @@ def expect(elf, name, truth):
         vg = ((rsrc1 & 63) + 1) * 4
         sg = (((rsrc1 >> 6) & 15) + 1) * 8
         nv, ns = byname[name + '.num_vgpr'], byname[name + '.numbered_sgpr']
-        if len(nv) > 1 or len(ns) > 1:
-            return None
+        # metadata symbols are matched by name only; duplicates that disagree
+        # leave the register count unjudged
         m['WIVgpr'] = m['WFSgpr'] = None
-        if not nv or nv[0]['value'] <= 1024:
+        if len({y_['value'] for y_ in nv}) <= 1 and (not nv or nv[0]['value'] <= 1024):
             m['WIVgpr'] = max(vg, (nv[0]['value'] + 3) // 4 * 4) if nv else vg
-        if not ns or ns[0]['value'] <= 1024:
+        if len({y_['value'] for y_ in ns}) <= 1 and (not ns or ns[0]['value'] <= 1024):
             m['WFSgpr'] = max(sg, (ns[0]['value'] + 2 + 7) // 8 * 8) if ns else sg
         exp.update(kind='v5', version=5, data=sl, meta=m)
         return exp
-    if kds:
-        return None           # a descriptor symbol that is not a descriptor: outside the valid stream
     if truth is None:
         # shipped code object V2 file: kernel symbols of type AMDGPU_HSA_KERNEL carry a header
         if elf.abi == 0 and (y['info'] & 15) == 10 and len(sl) >= 256:
@@ -191,6 +194,14 @@ def is_hdr(b):
     return maj == 1 and mnr <= 2 and kind == 1 and 7 <= mvm <= 9 and ent == 256
 
 
+def only_kernel(elf):
+    """name of the only kernel symbol of the object, else None"""
+    if elf.syms is None:
+        return None
+    ks = [y for y in elf.syms if 0 < y['shndx'] < len(elf.secs) and elf.secs[y['shndx']]['name'] == '.text' and y['size'] > 0]
+    return ks[0]['name'] if len(ks) == 1 else None
+
+
 def monitor(c):
     """[(query index, text, known:bool)] for a valid case"""
     if not c.get('valid'):
@@ -201,15 +212,22 @@ def monitor(c):
         return []
     out = []
     for qi, q in enumerate(c['queries']):
-        if q['name'] == '':
-            continue
-        truth = (c.get('truth') or {}).get(q['name'])
+        name = q['name']
+        if name == '':
+            # auto-detection: with exactly one kernel symbol (positive size, in a
+            # section called .text) the result must be that of loading it by name
+            name = only_kernel(elf)
+            if not name:
+                continue
+        truth = (c.get('truth') or {}).get(name)
         if c['src'] != 'shipped' and truth is None:
             continue
-        exp = expect(elf, q['name'], truth)
+        exp = expect(elf, name, truth)
         if exp is None:
             continue
         msg = judge(q['res'], exp)
+        if msg and q['name'] == '':
+            msg = 'loaded with the empty name (the only kernel is %r, loading it by name must give the same): %s' % (name, msg)
         if msg:
             known = (exp.get('kind') == 'raw' and q['res']['class'] == 'ok' and is_hdr(exp['data'])
                      and bytes.fromhex(q['res'].get('data', '')) == exp['data'][256:])
@@ -385,7 +403,9 @@ def main(argv):
         'history_loads_from_overwritten_buffer': sum(1 for c in top if c['src'] == 'hist' for st in c['steps'] if not st.get('fresh')), 'shipped_files': len(shipped), 'shipped_loader_calls': sum(len(c['queries']) for c in shipped),
         'outcome_histogram': dict(cls), 'generated_kernel_kinds': dict(truth),
         'v5_loads_whose_code_passes_the_header_test': mimic_v5,
-        'monitor_judged_calls': sum(1 for c in cases if c.get('valid') for q in c['queries'] if q['name']),
+        'monitor_judged_calls': sum(1 for c in cases if c.get('valid') for q in c['queries']),
+        'empty_name_loads_of_valid_objects': sum(1 for c in cases if c.get('valid') for q in c['queries'] if q['name'] == ''),
+        'valid_objects_with_decoy_symbols': sum(1 for c in cases if c.get('valid') and 'decoy' in c.get('tag', '')),
         'model_mismatches': len(mism), 'monitor_failures': len(bad), 'known_finding_witnesses': len(known),
     })
     rep.samples = [{'tag': c['tag'], 'file': c.get('file'), 'queries': [(q['name'], q['res']['class'], q['res'].get('version')) for q in c['queries'][:4]]}
